@@ -224,12 +224,149 @@ def run_step(spec, tier):
     return res
 
 
+# ------------------------------------------------------------------ (a') one whole operation: lock its arrays, then release them
+def run_oppair(spec, tier):
+    """The arrays of one operation are locked (owner before view, as Tensor._op does) and later released by the op's finalizer, from a
+    symbolic pre-state in which other operations may hold any of them.  Spec-level obligation (not derived from the code): an array
+    that no other operation holds ends with the flag it had before; an array another operation holds stays read-only with its count.
+    A counterexample is mapped to the Tensor-level history with the same flag pattern and reported only if that history reproduces."""
+    import collections
+
+    import mygrad._utils.lock_management as lm
+
+    mg = common._WORKER["mg"]
+    res = common.new_result()
+    engine = eng_mod.Engine()
+    engine.reset_fn = lib.reset_state
+    members = spec["arrays"]
+    obligations = discharged = 0
+    saved = (lm._array_counter, lm._array_tracker, lm._views_waiting_for_unlock)
+    cexs = []
+
+    def body():
+        B = FA("B")
+        V = FA("V", B)
+        S = FA("S")
+        F = FA("F", _Foreign())
+        arrs = {"B": B, "V": V, "S": S, "F": F}
+        cnt, trk, pre = SymCounter(), {}, {}
+        for a in (B, V, S, F):
+            c = z3.Int("c_" + a.name)
+            engine.assume(c >= 0)
+            held = bool(SymBool(c > 0))  # another live operation holds the array
+            pre[a.name] = dict(c=c, held=held, w=a.flags._w)
+            if held:
+                trk[id(a)] = lm.ref(a)
+                cnt[id(a)] = SymInt(c)
+                engine.assume(z3.Not(a.flags._w))  # Inv: counted => read-only
+            else:
+                engine.assume(c == 0)
+        # NumPy: a view created from a read-only owner is read-only, but flags can be changed independently afterwards: no constraint
+        lm._array_counter, lm._array_tracker, lm._views_waiting_for_unlock = cnt, trk, collections.defaultdict(set)
+        order = [arrs[n] for n in ("B", "V", "S", "F") if n in members]  # owner first (unique_arrs_and_bases)
+        for a in order:
+            lm.lock_arr_writeability(a)
+        during = {a.name: a.flags._w for a in order}
+        lm.release_writeability_lock_on_op(order)
+        post = {}
+        for a in (B, V, S, F):
+            c = cnt.get(id(a), 0)
+            post[a.name] = dict(c=SymInt.lift(c) if not isinstance(c, int) else z3.IntVal(c), t=id(a) in trk, w=a.flags._w)
+        return pre, during, post
+
+    def zb(v):
+        return v if isinstance(v, z3.ExprRef) else z3.BoolVal(bool(v))
+
+    try:
+        for p in engine.explore(body, max_paths=3000, max_seconds=200, catch=(KeyError, AttributeError, TypeError)):
+            res["paths"] += 1
+            if p.exc is not None:
+                res["status"] = common.INCONCLUSIVE
+                res["notes"].append("lock manager raised %s: %s" % (type(p.exc).__name__, p.exc))
+                continue
+            pre, during, post = p.out
+            pc = [tm.to_z3(c) for c in p.pc]
+            obs = []
+            for n in members:
+                obs.append(("during the operation %s is read-only" % n, [zb(during[n])], None))
+                family_free = z3.Not(z3.BoolVal(pre[n]["held"]))
+                if n == "V":
+                    family_free = z3.And(family_free, z3.Not(z3.BoolVal(pre["B"]["held"])))
+                obs.append(("an array nobody else holds gets its earlier flag back (%s)" % n, [family_free, zb(post[n]["w"]) != zb(pre[n]["w"])], n))
+                obs.append(("an array nobody else holds is untracked afterwards (%s)" % n, [family_free, zb(pre[n]["w"]), z3.Or(zb(post[n]["t"]), post[n]["c"] != 0)], n))
+                obs.append(("an array another operation holds stays read-only with its count (%s)" % n,
+                            [z3.BoolVal(pre[n]["held"]), z3.Or(zb(post[n]["w"]), post[n]["c"] != pre[n]["c"])], None))
+            for n in ("B", "V", "S", "F"):
+                if n not in members and not (n == "B" and "V" in members):
+                    obs.append(("frame: %s untouched" % n, [z3.Or(post[n]["c"] != pre[n]["c"], zb(post[n]["w"]) != zb(pre[n]["w"]))], None))
+            for nm, neg, flagged in obs:
+                obligations += 1
+                sol = z3.Solver()
+                sol.set("timeout", 20000)
+                sol.add(*(pc + neg))
+                r = str(sol.check())
+                res[r] += 1
+                if r == "unsat":
+                    discharged += 1
+                elif r == "sat":
+                    m = sol.model()
+                    val = lambda nme: bool(m.eval(zb(pre[nme]["w"]), model_completion=True))
+                    cexs.append((nm, flagged, {k: val(k) for k in ("B", "V", "S", "F")}))
+                else:
+                    res["status"] = common.INCONCLUSIVE
+    except eng_mod.Budget as e:
+        res["status"] = common.INCONCLUSIVE
+        res["notes"].append(str(e))
+    finally:
+        lm._array_counter, lm._array_tracker, lm._views_waiting_for_unlock = saved
+        lib.reset_state()
+    res["obligations"] = obligations
+    res["discharged"] = discharged
+    # map every counterexample to the Tensor-level history with the same flag pattern; report only what reproduces there
+    seen = set()
+    for nm, flagged, w in cexs:
+        hist = None
+        if flagged == "V" and w["B"] and not w["V"]:
+            hist = [("create", "a"), ("release", "a", "del")]  # view made read-only by the caller, owner writeable
+        elif flagged == "V" and not w["B"] and w["V"]:
+            hist = [("create", "b"), ("release", "b", "del")]  # writeable view of an owner made read-only afterwards
+        key = (nm, str(hist))
+        if key in seen:
+            continue
+        seen.add(key)
+        if hist is None:
+            res["status"] = common.INCONCLUSIVE
+            res["notes"].append("unconfirmed operation-level counterexample: %s at pre-flags %s (no Tensor-level history of this shape)" % (nm, w))
+            continue
+        bad = run_history(mg, hist)
+        if not bad:
+            res["status"] = common.INCONCLUSIVE
+            res["notes"].append("operation-level counterexample `%s` (pre-flags %s) is not shown by history %s" % (nm, w, _fmt(hist)))
+            continue
+        sig = _signature(bad)
+        known = common.match_known(common.load_known(PROP), sig)
+        path = common.write_replay(PROP, gradcase._safe(spec["name"] + "_" + hist[0][1]), replay_history(hist))
+        ok, out = common.run_replay(path, count=known is None)
+        if ok:
+            if known is None:
+                res["status"] = common.VIOLATION
+            res["violations"].append({"signature": sig, "replay": path,
+                                      "summary": "z3: %s fails at pre-flags %s; history %s: %s" % (nm, w, _fmt(hist), bad)})
+        else:
+            res["status"] = common.INCONCLUSIVE
+            res["notes"].append("did not reproduce: %s :: %s" % (_fmt(hist), bad))
+    res["sample"] = {"operation over": members, "pre_state": "symbolic counts >= 0 (other operations holding the arrays), symbolic flags"}
+    return res
+
+
 # ------------------------------------------------------------------ driver
 def cases(tier):
     out = []
     for op in ("lock", "force-lock", "release"):
         for tgt in ("B", "V", "S", "F"):
             out.append({"kind": "step", "name": "step/%s/%s" % (op, tgt), "op": op, "target": tgt})
+    for members in (["S"], ["B"], ["B", "V"], ["F"], ["B", "V", "S"], ["S", "F"]):
+        out.append({"kind": "oppair", "name": "op/" + "+".join(members), "arrays": members})
     progs = programs(tier)
     size = 400
     for i in range(0, len(progs), size):
@@ -241,6 +378,8 @@ def run_case(spec, tier):
     mg = common._WORKER["mg"]
     if spec["kind"] == "step":
         return run_step(spec, tier)
+    if spec["kind"] == "oppair":
+        return run_oppair(spec, tier)
     res = common.new_result()
     n = 0
     confirmed = set()
